@@ -59,7 +59,10 @@ type Branch struct {
 }
 
 type Stmt struct {
-	K        byte // D A X P I W B K Q R F Y
+	K        byte // D A X P I W E B K Q R F Y
+	Decl     bool // 'E': WHILE VAR @x IN …
+	Rows     int  // 'E': the cursor yields the rows 0 … Rows-1
+	Cur      int  // 'E': number of the cursor (one per statement)
 	AsCase   bool // an 'I' written as CASE WHEN … THEN … ELSE … END CASE (Processor.Case instead of IfStmt)
 	Stray    bool // a B K Q R where csvq's grammar does not admit it: written as a PRINT, patched into the syntax tree
 	X        int
@@ -137,6 +140,16 @@ func (s *Stmt) enc(b *strings.Builder) {
 	case 'W':
 		b.WriteString(" W")
 		s.E.enc(b)
+		encBlock(b, s.Body)
+	case 'E':
+		d := 0
+		if s.Decl {
+			d = 1
+		}
+		fmt.Fprintf(b, " E%d %d %d", s.X, d, s.Rows)
+		for i := 0; i < s.Rows; i++ {
+			fmt.Fprintf(b, " i%d", i)
+		}
 		encBlock(b, s.Body)
 	case 'F':
 		fmt.Fprintf(b, " F%d %d", s.X, len(s.Params))
@@ -278,6 +291,14 @@ func (s *Stmt) sql(b *strings.Builder) {
 		b.WriteString(" DO ")
 		sqlBlock(b, s.Body)
 		b.WriteString("END WHILE;")
+	case 'E': // three statements: the cursor is declared and opened in the enclosing block, right in front of the loop
+		fmt.Fprintf(b, "DECLARE cq%d CURSOR FOR SELECT c1 FROM tq WHERE c1 < %d ORDER BY c1; OPEN cq%d; WHILE ", s.Cur, s.Rows, s.Cur)
+		if s.Decl {
+			b.WriteString("VAR ")
+		}
+		fmt.Fprintf(b, "%s IN cq%d DO ", vname(s.X), s.Cur)
+		sqlBlock(b, s.Body)
+		b.WriteString("END WHILE;")
 	case 'F':
 		b.WriteString("DECLARE " + fname(s.X) + " FUNCTION (")
 		for i, p := range s.Params {
@@ -295,6 +316,10 @@ func (s *Stmt) sql(b *strings.Builder) {
 		b.WriteString("END;")
 	}
 }
+
+// tablePrelude declares, in the session scope, the temporary table the cursors of 'E' statements read (2 statements)
+const tablePrelude = "DECLARE tq VIEW (c1); INSERT INTO tq VALUES (0), (1), (2), (3); "
+const preludeStmts = 2
 
 func sqlProgram(ss []*Stmt) string {
 	var b strings.Builder
@@ -505,6 +530,25 @@ func (p *pgen) stmt(c genCtx) []*Stmt {
 		}
 		p.note('I', c)
 		return []*Stmt{s}
+	case r < 67:
+		// WHILE [VAR] @x IN cursor over a small temporary table
+		k := p.nextCnt
+		p.nextCnt++
+		cc := c.child()
+		cc.inLoop = true
+		st := &Stmt{K: 'E', Cur: k, Rows: p.g.Intn(4), Decl: p.g.Intn(2) == 0}
+		if st.Decl {
+			st.X = p.g.Intn(poolVars)
+			cc.visible[st.X], cc.declared[st.X] = true, true
+		} else {
+			st.X = p.pickVar(c)
+		}
+		st.Body = p.block(cc, 1, 3)
+		if c.inFunc {
+			p.kinds['e']++ // cursor loops inside function bodies
+		}
+		p.note('E', c)
+		return []*Stmt{st}
 	case r < 74:
 		k := p.nextCnt
 		p.nextCnt++
@@ -651,6 +695,8 @@ func costBlock(ss []*Stmt, cc int64) int64 {
 			t = sat(t + costBlock(s.Els, cc))
 		case 'W':
 			t = sat(t + 4*sat(costExpr(s.E, cc)+costBlock(s.Body, cc)))
+		case 'E':
+			t = sat(t + 3 + int64(s.Rows)*sat(1+costBlock(s.Body, cc)))
 		case 'F':
 			for _, pr := range s.Params {
 				t = sat(t + costExpr(pr.Dflt, cc))
